@@ -282,7 +282,16 @@ pub fn run(sc: &Scenario, stats: &mut Stats) {
                 Poll::Ready(Some(it)) => {
                     nitems += 1;
                     stats.items += 1;
-                    let (o, cont) = item_outcome(&it);
+                    // (an item whose borrowed text has been clobbered need not be valid UTF-8 any more: printing it
+                    // can panic inside core::fmt - that is data about the code under test, not a harness failure)
+                    let (o, cont) = std::panic::catch_unwind(std::panic::AssertUnwindSafe(|| item_outcome(&it))).unwrap_or_else(|_| {
+                        let cls = match &it {
+                            Ok(Ok(_)) => "success",
+                            Ok(Err(_)) => "method_err",
+                            Err(e) => crate::util::err_class(e),
+                        };
+                        (Outcome::new(cls, "<unprintable: the item's borrowed text is not valid UTF-8>".to_string()), false)
+                    });
                     ev(json!({"ev":"item","k":nitems,"cls":o.cls,"canon":o.canon,"cont":cont}));
                     if matches!(o.cls, "success" | "method_err") {
                         if sc.hold {
